@@ -106,3 +106,9 @@ CHECKS["C08"] = (
     "Held on the inputs observed: for every scenario and both victim roles each outgoing handshake / control message of the adversary is replaced before record protection by mutants (outer and discovered inner length fields -> 0/-1/+1/max, emptied / shrunk vectors, truncation, extension, extension-level hello edits, unknown enum values, DER edits, compressed-certificate bombs, byte edits), and record-level junk (oversized, empty, unknown-type, SSLv2-framed records, alert fragments, floods of empty / warning / CCS records) is injected at several points; the victim always ends with success or a documented exception, within the work and memory budgets, closed and non-resumable, with a fatal alert on the wire for self-diagnosed failures.",
     "Mutants are produced by harness operators (sampling of 'all byte strings'); work is measured in Python function starts, not time; memory bound 64 MiB + 64 x bytes sent.",
     "DESIGN.md section 3, C08")
+CHECKS["C19"] = (
+    "exploration",
+    "runtime monitoring: deep before/after snapshots around validate(), idempotence and instantiation monitors, out-of-domain value table, and a live-handshake oracle for pairs judged compatible by an independent three-valued predicate",
+    "Held on the settings observed: every generated object (restrictions / reorderings of the defaults, with injected out-of-domain values) is unchanged by validate() whether it returns or raises, validate(validate(x)) == validate(x), every algorithm named by the output is instantiated, every out-of-domain value per documented field raises ValueError and boundary values are accepted; pairs the predicate judges compatible (version negotiated per RFC 8446 4.2.1, suite by IANA name, group, signature scheme usable with the server key, key sizes) complete a live handshake. Known finding F10 (server commits to a version without workable suite) is reported.",
+    "The predicate answers 'unsure' (not judged) for configurations whose meaning the documentation leaves open (1.3 inside min/max but not in versions, maxVersion not in versions, server preferring an older version, defaultCurve outside eccCurves).",
+    "DESIGN.md section 3, C19")
